@@ -44,13 +44,18 @@ Leaf(k, id, d, md) ==
       [] k = "send"  -> {Send(id, to, v) : to \in {"S", "T", "W"}, v \in {"300", "50"}}
       [] k = "store" -> {Store(id)}
       [] k = "query" -> {Query(id)}
+      \* re-enter the top contract (which then runs its alt body)
+      [] k = "recall" -> {Recall(id, md, "C0", Z)}
 
 RInit == /\ sc = None /\ path = <<>> /\ nid = 0 /\ fin = FALSE /\ out = None /\ tree = CallC(0, "catch", Z, <<>>)
 \* (TLC computes the initial states once per run: the top frame is drawn by the first step)
 Top == /\ nid = 0 /\ nid' = 1
-       /\ \E k \in {R(1..8)} :
+       /\ \E k \in {R(1..8)} : \E na \in {R(0..5)} :
+         \E a1 \in {R(Leaf(R(LeafKinds), 100, "call", "catch"))} : \E a2 \in {R(Leaf(R(LeafKinds), 101, "call", "catch"))} :
+            \* one top contract in three has a second entry point (alt body) that nested frames may re-enter
+            LET alt == IF na = 4 THEN <<a1>> ELSE IF na = 5 THEN <<a1, a2>> ELSE <<>> IN
             tree' = IF k = 1 THEN Create(0, Z, <<>>) ELSE IF k = 2 THEN Create(0, "600", <<>>)
-                    ELSE IF k <= 5 THEN CallC(0, "catch", Z, <<>>) ELSE CallC(0, "catch", "900", <<>>)
+                    ELSE IF k <= 5 THEN CallCA(0, "catch", Z, <<>>, alt) ELSE CallCA(0, "catch", "900", <<>>, alt)
        /\ UNCHANGED <<sc, path, fin, out>>
 
 \* a frame can be closed only when it has executed something
@@ -63,8 +68,8 @@ Build ==
                    ELSE {"leaf", "leaf2", "leaf3", "close"})} :
        \* a failing precompile call is mostly caught by the calling contract
        \E pm \in {R({"catch", "catch2", "catch3", "bubble"})} :
-       \E o \in {R(Leaf(R(LeafKinds), nid, tree.op, IF pm = "bubble" THEN "bubble" ELSE "catch"))} :
-       \E o2 \in {R(Leaf(R(LeafKinds), nid + 1, tree.op, IF pm = "bubble" THEN "bubble" ELSE "catch"))} :
+       \E o \in {R(Leaf(R(IF path # <<>> /\ tree.alt # <<>> THEN LeafKinds \cup {"recall"} ELSE LeafKinds), nid, tree.op, IF pm = "bubble" THEN "bubble" ELSE "catch"))} :
+       \E o2 \in {R(Leaf(R(IF tree.alt # <<>> THEN LeafKinds \cup {"recall"} ELSE LeafKinds), nid + 1, tree.op, IF pm = "bubble" THEN "bubble" ELSE "catch"))} :
        \E cv \in {R({Z, "0", "400"})} : \E md \in {R({"catch", "catch2", "bubble"})} :
        \E term \in {R({"none", "none2", "none3", "rev", "rev2", "inval", "selfd"})} :
        \E keep \in {R(1..3)} : \E ben \in {R({"T", "self", "S"})} :
@@ -92,7 +97,7 @@ PairsOp(self, o) == (IF o.op = "pc" /\ TypeOf(o.m) # "-" /\ o.who = "S" THEN {<<
                     \* allowance arithmetic needs existing grants of both types the harness passes
                     \cup (IF o.op = "pc" /\ o.m \in ApprM /\ Named(o.grantee, self) # "S"
                           THEN {<<Named(o.grantee, self), "delegate">>, <<Named(o.grantee, self), "undelegate">>} ELSE {})
-                    \cup (IF HasBody(o) THEN Pairs(ContractOf(o), o.body) ELSE {})
+                    \cup (IF HasBody(o) THEN Pairs(ContractOf(o), o.body) \cup Pairs(ContractOf(o), o.alt) ELSE {})
 Pairs(self, body) == IF body = <<>> THEN {} ELSE PairsOp(self, body[1]) \cup Pairs(self, Tail(body))
 
 \* the allow-list of a grant names one validator: the one the ops of this family address (the destination
